@@ -11,6 +11,7 @@ import (
 	"github.com/256dpi/lungo/bsonkit"
 	"github.com/256dpi/lungo/mongokit"
 	"go.mongodb.org/mongo-driver/bson"
+	"go.mongodb.org/mongo-driver/bson/primitive"
 	"go.mongodb.org/mongo-driver/mongo"
 	"go.mongodb.org/mongo-driver/mongo/options"
 	"pgregory.net/rapid"
@@ -445,6 +446,34 @@ func runC20Driver(c bson.D, x *Ctx) error {
 			return cur.All(ctx, &out)
 		})
 		run("ListCollectionNames", func() error { _, err := env.client.Database("d1").ListCollectionNames(ctx, freshD(filter)); return err })
+		// replace-style upserts whose filter and replacement both carry a
+		// document, array or binary _id (equal, and different)
+		oddIDs := []interface{}{
+			bson.D{{Key: "x", Value: int32(1)}, {Key: "y", Value: bson.A{int32(1)}}},
+			bson.A{int32(1), "a"},
+			primitive.Binary{Subtype: 4, Data: []byte{1, 2, 3, 4, 5, 6, 7, 8, 9, 10, 11, 12, 13, 14, 15, 16}},
+			bson.D{{Key: "a", Value: bson.A{bson.D{}}}},
+			bson.D{},
+		}
+		for k, id := range oddIDs {
+			id, other := id, oddIDs[(k+1)%len(oddIDs)]
+			run("ReplaceOne(upsert, composite _id)", func() error {
+				_, err := coll.ReplaceOne(ctx, bson.D{{Key: "_id", Value: fresh(id)}}, bson.D{{Key: "_id", Value: fresh(id)}, {Key: "v", Value: int32(k)}}, options.Replace().SetUpsert(true))
+				return err
+			})
+			run("ReplaceOne(upsert, different composite _id)", func() error {
+				_, err := coll.ReplaceOne(ctx, bson.D{{Key: "_id", Value: fresh(other)}, {Key: "nomatch", Value: int32(k)}}, bson.D{{Key: "_id", Value: fresh(id)}, {Key: "v", Value: int32(k)}}, options.Replace().SetUpsert(true))
+				return err
+			})
+			run("FindOneAndReplace(upsert, composite _id)", func() error {
+				var d bson.D
+				return coll.FindOneAndReplace(ctx, bson.D{{Key: "_id", Value: fresh(id)}, {Key: "nomatch", Value: int32(k)}}, bson.D{{Key: "_id", Value: fresh(id)}, {Key: "w", Value: int32(k)}}, options.FindOneAndReplace().SetUpsert(true)).Decode(&d)
+			})
+			run("BulkWrite(replace upsert, composite _id)", func() error {
+				_, err := coll.BulkWrite(ctx, []mongo.WriteModel{mongo.NewReplaceOneModel().SetFilter(bson.D{{Key: "_id", Value: fresh(id)}, {Key: "nomatch", Value: int32(k + 10)}}).SetReplacement(bson.D{{Key: "_id", Value: fresh(id)}}).SetUpsert(true)})
+				return err
+			})
+		}
 		run("DeleteMany", func() error { _, err := coll.DeleteMany(ctx, freshD(filter)); return err })
 		run("FindOneAndDelete", func() error {
 			var d bson.D
